@@ -24,7 +24,7 @@ CLAIMS = {
             "text": "Coq theorems for EVERY repetition count r: soundness (invariant preserved by every single cell write), never looser than the superadditive bounds, monotone in r, lower bounds antitone along inclusion, upper-bound caps; all for arbitrary stale tables. Correspondence of compute_bounds_superadditive_monotone_approx_cached with the model for r in 0..10, 100, 1000 and oracles on the implementation.",
             "technique": "Coq proof (loop invariant over rounds and cells) + correspondence"},
     "C07": {"design_ref": "DESIGN.md 7/C07",
-            "text": "Coq theorem: K <= K' implies pointwise tighter intervals for both superadditive computers (all n, any tables holding the knowledge). Gap-function monotonicity (l1, l-inf, squared l2, binomially weighted gap) is proved in the Norms/Exploit development (C05 slice) and cited when merged; the SAM variant and the four registered gap functions are checked on every edge of the knowledge lattice (n<=3 quick, n<=4 thorough) on the implementation and against the model. Added: all gap functions are invariant under adding an additive game (ShiftProofs); same-object reveal chains incl. n = 9, 10 for the memoised computers in the correspondence. Added later: the four gap functions are comparable for all n (linf <= l1, exploitability <= l1, linf^2 <= l2^2 <= linf*l1, linf <= C*exploitability) and vanish together (GapCompare).",
+            "text": "Coq theorem: K <= K' implies pointwise tighter intervals for both superadditive computers (all n, any tables holding the knowledge). Gap-function monotonicity (l1, l-inf, squared l2, binomially weighted gap) is proved in the Norms/Exploit development (C05 slice) and cited when merged; the SAM variant and the four registered gap functions are checked on every edge of the knowledge lattice (n<=3 quick, n<=4 thorough) on the implementation and against the model. Added: all gap functions are invariant under adding an additive game (ShiftProofs); same-object reveal chains incl. n = 9, 10 for the memoised computers in the correspondence. Added later: the four gap functions are comparable for all n (linf <= l1, exploitability <= l1, linf^2 <= l2^2 <= linf*l1, linf <= C*exploitability) and vanish together (GapCompare); multiplicative_factor.py is modelled (MulFactor): spec of the four factors (None iff an assert fires), for sound tables 1 <= factor to the lower bound <= factor lower/upper, both non-increasing along reveals for the superadditive computers, scale invariance; compared with the implementation along reveal chains.",
             "technique": "Coq proof (induction on coalition size over two solutions) + lattice-edge correspondence + gap oracles"},
     "C08": {"design_ref": "DESIGN.md 7/C08",
             "text": "Coq theorems for EVERY computer of the registry (reference, cached, SAM approximation with any repetition count): the result is a function of the known rows only (stale unknown rows irrelevant, any game class), recomputation idempotent, reveal+un-reveal undone exactly, histories ending in the same knowledge confluent, computed states fresh. Correspondence on histories + implementation-side oracles (route independence, idempotence, undo, stale rows) for every registered computer. Added: revealing a coalition already pinned down by the bounds is a no-op for the superadditive computers and not for sam_apx (witness: 5-player budget game); histories through the public compute_bounds() with values of a second game, n = 9 histories, budget-game walks in the correspondence.",
@@ -63,7 +63,7 @@ CLAIMS = {
             "text": "Coq theorems: ranking of coalition sets is a bijection ordered by size for every (nc, limit >= 1); id->rank inverse and total construction for the by-id table, refutation for the by-count table; invariant over ALL histories of non-negative iterations (plain and plus): every current strategy is a distribution supported on unused viable coalitions, regret added is orthogonal to the strategy, plus keeps regret non-negative, no NaN with the clamped limit (refutation for the unclamped one); average strategy distribution; save/load identity. One-step lock-step correspondence (float32 state -> Q) + invariant oracle on the implementation.",
             "technique": "Coq invariant proof over iteration histories + one-step lock-step correspondence"},
     "C18": {"design_ref": "DESIGN.md 7/C18 + DESIGN_NOTES/C18.md",
-            "text": "Coalition's one-expression methods are TRANSLATED from /repo into Coq on every run (fail-closed AST translator) and the bitwise specs are proved over the generated definitions for all ids and n; players/size/from_players, both sub-/super-coalition enumerations (object and id-array, exact order) are complete, duplicate-free and permutations of each other; combinations/powerset spec; is_superadditive / is_monotone_decreasing / is_sam / check_supermodularity decide their textbook definitions. Correspondence: all coalitions n = 1..10, all pairs n <= 5 (6 thorough), exhaustive small lattices for the predicates.",
+            "text": "Coalition's one-expression methods AND the numpy id-array functions of coalition_ids.py are TRANSLATED from /repo into Coq on every run (fail-closed AST translators translate.py / translate_ids.py, the latter over the small array algebra NpArr.v); the bitwise specs are proved over the generated definitions for all ids and n, and the generated id-array functions are proved equal to the hand model (all n, all ids incl. those the assert rejects); players/size/from_players, both sub-/super-coalition enumerations (object and id-array, exact order) are complete, duplicate-free and permutations of each other; combinations/powerset spec; is_superadditive / is_monotone_decreasing / is_sam / check_supermodularity decide their textbook definitions. Correspondence: all coalitions n = 1..10, all pairs n <= 5 (6 thorough), exhaustive small lattices for the predicates.",
             "technique": "translation (regenerated each run) + Coq proofs over generated and hand models + exhaustive correspondence"},
     "C19": {"design_ref": "DESIGN.md 7/C19 + DESIGN_NOTES/C19.md",
             "text": "Coq theorems: the store is insert-if-absent - once a name is present its entry never changes under ANY further saves (first write wins), saving an existing name is a no-op, saving a new name adds it and changes nothing else; nested-list <-> array round trip for every shape with all dimensions >= 1 (NaN included; refutation for a zero dimension); entry round trip. Correspondence on save histories (repeated names, NaN padding, extreme values, non-JSON metadata) after every save; solve / greedy / best_states commands run with the computation captured - the file must hold exactly that. PARTIAL: CPython's json text codec and float repr are trusted (exercised, not modelled).",
